@@ -6,7 +6,7 @@ from checks import vmm_b_common as vb
 
 HARNESS = ["vmm/c05_kpdt_test.go"]
 BUGS = ["RWAlways", "NXDropped", "NoOffsetSub", "LastPageFromSize", "RsvSkipLowest", "NoActivate", "UserBit",
-        "NoRangeTest", "RootNotCleared"]
+        "NoRangeTest", "RootNotCleared", "RejectMovesCursor"]
 ASSUME = [
     "domain = the property's quantifier: no two sections share a page; a section lies wholly at/above or wholly below the kernel "
     "offset; sections stay clear of the reserved pages, the temporary-mapping page and the recursive window (top-level slot 511); "
@@ -25,7 +25,7 @@ def case_to_replay(events):
     e0 = events[0]
     return {"off": vb.limbs(e0["off"]),
             "secs": [{"a": vb.limbs(x["a"]), "sz": vb.limbs(x["sz"]), "fl": x["fl"]} for x in e0["secs"]],
-            "rsv": [{"f": vb.limbs(r["f"]), "fl": fl} for r, fl in zip(e0["rsv"], e0["rsvfl"])],
+            "hist": [{"k": h["k"], "sz": vb.limbs(h["sz"]), "f": vb.limbs(h["f"]), "fl": h["fl"]} for h in e0["hist"]],
             "failat": e0.get("failat", 0)}
 
 
@@ -43,9 +43,9 @@ def record(ctx, name, path):
 def run(ctx):
     q = ctx.quick
     ctx.assumptions += ASSUME
-    ctx.rule = ("case = (kernel offset, ELF section table, early reservations with their boot permissions[, failing allocation index]); "
+    ctx.rule = ("case = (kernel offset, ELF section table, boot history of early virtual-region requests - successful ones mapped with their boot permissions, refused oversized ones up to 2^64-1 -[, failing allocation index]); "
                 "leg G replays every configuration TLC enumerated in the small scope (one section: every start/size/flag/offset "
-                "combination; reservations 0..3; two sections in both orders; linker-like triples with all 8^3 flag combinations), "
+                "combination; every boot history of up to 3 (quick) / 4 (thorough) successful and refused requests; two sections in both orders; linker-like triples with all 8^3 flag combinations), "
                 "leg T draws seeded random tables of 2-14 sections at real scale; a case is distinct by its configuration and "
                 "non-trivial when initialisation succeeded and the new address space translates at least one page")
     d = ctx.spec_dir("vmm")
